@@ -43,6 +43,13 @@ FAMILY["repeated-verbatim"] = [("parameters", "", ["p=2.0", "q=3.0"]), ("states"
                                ("expressions", "", ["a = p*x + q", "dx_dt = a - x", "a = p*x + q", "dy_dt = a*y"])]
 
 
+# the same name declared identically in two components (each component owns a copy), and atoms tagged with two components
+FAMILY["shared-declaration"] = [("parameters", "Na", ["F=96.5", "g=1.0"]), ("parameters", "K", ["F=96.5"]), ("states", "Na", ["m=0.1"]), ("states", "K", ["n=0.3"]),
+                                ("expressions", "Na", ["dm_dt = g*F - m"]), ("expressions", "K", ["dn_dt = F*n - m"])]
+FAMILY["two-tags"] = [("parameters", 'Main", "X', ["k=2.0"]), ("parameters", "Main", ["c=0.5"]), ("states", 'Main", "X', ["x=1.0"]), ("states", "Main", ["y=2.0"]),
+                      ("expressions", 'Main", "X', ["dx_dt = k - x*c"]), ("expressions", "Main", ["a = k*x", "dy_dt = a - y"])]
+
+
 def render(blocks):
     lines = []
     for kind, comp, ents in blocks:
